@@ -1,9 +1,14 @@
 (* C21: every call of the lower allocator finishes in a bounded number of steps once it runs alone.
    Machine: LowerMachine.v (M1).  `solo g n s t` = n steps of thread t only.
-   Proof: a measure `mu` on (memory, call, pc) with values in N that strictly decreases with every step
-   of a running thread (for EVERY state, no invariant), a closed-form bound of `mu` for program points
-   whose loop indices are in range (`pc_ok`, an invariant of every thread under every schedule), hence
-   a bound on the number of solo steps that depends on the geometry only. *)
+   Proof: a measure `mu` on (memory, call, pc) with values in N such that EVERY step of a running thread,
+   in every state (no invariant), settles the thread or strictly decreases `mu` (`step_dec`): loop
+   indices count down with truncated subtraction, a CAS-retry pc carries one extra unit while its cached
+   value differs from memory (a failed CAS replaces it by the value just observed).
+   `mu <= boundN g` for program points whose rollback/fill indices are in range (`pc_ok`); `pc_ok` holds
+   for every thread in every state reachable from `boot` under every schedule (`all_ok_run`).  It cannot
+   be dropped (`pc_ok_needed`): in an arbitrary state a rollback index may be as large as the memory.
+   Also: CAS-retry loops are left after <= 2 solo steps; the only panic that depends on another thread's
+   progress is the bounded spin of partial_put_huge (PP3, finding D13) with a concrete witness. *)
 From Coq Require Import PeanoNat ZifyBool.
 From LLF Require Import Base Row Bitfield Lower LowerMachine.
 
@@ -69,6 +74,55 @@ Proof.
   assert ((a + 1) * M <= T * M) by (apply N.mul_le_mono_r; exact Ha).
   rewrite N.mul_add_distr_r in H0. lia.
 Qed.
+
+(* ---------- the shape of a step's result ---------- *)
+Lemma pool_wr_row s h r v : ms_pool (wr_row s h r v) = ms_pool s.
+Proof. unfold wr_row. destruct (nth_error (ms_bfs s) (nn h)); reflexivity. Qed.
+
+Lemma nth_lt {A} (l : list A) i x : nth_error l i = Some x -> (i < length l)%nat.
+Proof. intros H. apply nth_error_Some. rewrite H. discriminate. Qed.
+
+Lemma pool_crash s s1 t c x : ms_pool s1 = ms_pool s ->
+  ms_pool (crash s1 t c x) = upd (ms_pool s) t (TPanic x c).
+Proof. intros Hp. unfold crash, set_thr. cbn [ms_pool]. rewrite Hp. reflexivity. Qed.
+Lemma pool_finish s s1 t c r : ms_pool s1 = ms_pool s ->
+  ms_pool (finish s1 t c r) = upd (ms_pool s) t (TIdle (Some r)).
+Proof. intros Hp. unfold finish. destruct c, r; cbn [set_held set_thr ms_pool]; rewrite Hp; reflexivity. Qed.
+Lemma pool_goto s s1 t c p' : ms_pool s1 = ms_pool s ->
+  ms_pool (goto s1 t c p') = upd (ms_pool s) t (TRun c p').
+Proof. intros Hp. unfold goto, set_thr. cbn [ms_pool]. rewrite Hp. reflexivity. Qed.
+
+(* the other threads' entries are untouched *)
+Definition frame (s : mstate) (t : nat) (s' : mstate) : Prop :=
+  forall t', t' <> t -> nth_error (ms_pool s') t' = nth_error (ms_pool s) t'.
+Lemma frame_upd s t s' x : ms_pool s' = upd (ms_pool s) t x -> frame s t s'.
+Proof. intros E t' Hne. rewrite E. apply nth_error_upd_other. congruence. Qed.
+Lemma frame_refl s t : frame s t s.
+Proof. intros t' _. reflexivity. Qed.
+
+Ltac pool := first [reflexivity | apply pool_wr_row].
+
+Ltac use_eqs :=
+  repeat match goal with
+  | H : rd_ent _ _ = Some _ |- _ => rewrite H
+  | H : rd_row _ _ _ = Some _ |- _ => rewrite H
+  | H : (_ =? _) = _ |- _ => rewrite H
+  | H : Nat.leb _ _ = _ |- _ => rewrite H
+  end.
+
+(* case analysis of a goal `P (fst (mstep ..))` along the branches of the step function *)
+Ltac split_ifs :=
+  repeat match goal with
+  | |- _ (fst (_, _)) => cbn [fst]
+  | |- _ (fst (match ?x with _ => _ end)) => destruct x eqn:?
+  | |- _ (fst (if ?x then _ else _)) => destruct x eqn:?
+  | |- _ (match ?x with _ => _ end) => destruct x eqn:?
+  | |- _ (if ?x then _ else _) => destruct x eqn:?
+  | |- _ (goto _ _ _ (if ?x then _ else _)) => destruct x eqn:?
+  end.
+Ltac branches :=
+  split_ifs; unfold next_child, next_row, next_chunk, next_group, toggle_ok, toggle_fail, toggle_entry;
+  split_ifs.
 
 Section Progress.
   Variable g : geom.
@@ -157,29 +211,24 @@ Section Progress.
 
   (* ---------- one step: settles, or decreases mu and keeps pc_ok ---------- *)
   Definition dec (s : mstate) (t : nat) (c : call) (p : pc) (s' : mstate) : Prop :=
-    settled s' t = true \/
-    exists p', nth_error (ms_pool s') t = Some (TRun c p') /\ mu s' c p' < mu s c p /\
-               (pc_ok c p = true -> pc_ok c p' = true).
-
-  Lemma pool_wr_row s h r v : ms_pool (wr_row s h r v) = ms_pool s.
-  Proof. unfold wr_row. destruct (nth_error (ms_bfs s) (nn h)); reflexivity. Qed.
-
-  Lemma nth_lt {A} (l : list A) i x : nth_error l i = Some x -> (i < length l)%nat.
-  Proof. intros H. apply nth_error_Some. rewrite H. discriminate. Qed.
+    frame s t s' /\
+    (settled s' t = true \/
+     exists p', nth_error (ms_pool s') t = Some (TRun c p') /\ mu s' c p' < mu s c p /\
+                (pc_ok c p = true -> pc_ok c p' = true)).
 
   Lemma dec_crash s t c p s1 x : nth_error (ms_pool s) t = Some (TRun c p) ->
     ms_pool s1 = ms_pool s -> dec s t c p (crash s1 t c x).
   Proof.
-    intros Hth Hp. left. unfold settled, crash, set_thr. cbn [ms_pool]. rewrite Hp.
+    intros Hth Hp. pose proof (pool_crash s s1 t c x Hp) as E.
+    split; [eapply frame_upd; exact E|]. left. unfold settled. rewrite E.
     rewrite nth_error_upd_same by (eapply nth_lt; exact Hth). reflexivity.
   Qed.
 
   Lemma dec_finish s t c p s1 r : nth_error (ms_pool s) t = Some (TRun c p) ->
     ms_pool s1 = ms_pool s -> dec s t c p (finish s1 t c r).
   Proof.
-    intros Hth Hp. left. unfold settled.
-    assert (E : ms_pool (finish s1 t c r) = upd (ms_pool s) t (TIdle (Some r))).
-    { unfold finish. destruct c, r; cbn [set_held set_thr ms_pool]; rewrite Hp; reflexivity. }
+    intros Hth Hp. pose proof (pool_finish s s1 t c r Hp) as E.
+    split; [eapply frame_upd; exact E|]. left. unfold settled.
     rewrite E, nth_error_upd_same by (eapply nth_lt; exact Hth). reflexivity.
   Qed.
 
@@ -187,15 +236,14 @@ Section Progress.
     ms_pool s1 = ms_pool s -> mu s1 c p' < mu s c p ->
     (pc_ok c p = true -> pc_ok c p' = true) -> dec s t c p (goto s1 t c p').
   Proof.
-    intros Hth Hp Hm Hk. right. exists p'. split; [|split; [exact Hm | exact Hk]].
-    unfold goto, set_thr. cbn [ms_pool]. rewrite Hp.
-    apply nth_error_upd_same. eapply nth_lt; exact Hth.
+    intros Hth Hp Hm Hk. pose proof (pool_goto s s1 t c p' Hp) as E.
+    split; [eapply frame_upd; exact E|].
+    right. exists p'. split; [|split; [exact Hm | exact Hk]].
+    rewrite E. apply nth_error_upd_same. eapply nth_lt; exact Hth.
   Qed.
 
   Lemma rem_succ a b : b + 1 < a -> rem a b = rem a (b + 1) + 1.
   Proof. unfold rem. lia. Qed.
-
-  Ltac pool := first [reflexivity | apply pool_wr_row].
 
   (* facts about the loop weights for every loop test in the context *)
   Ltac loop_facts c :=
@@ -208,14 +256,6 @@ Section Progress.
         pose proof (rem_step a b (CW c) H');
         pose proof (rem_step a b (GW c) H');
         clear H
-    end.
-
-  Ltac use_eqs :=
-    repeat match goal with
-    | H : rd_ent _ _ = Some _ |- _ => rewrite H
-    | H : rd_row _ _ _ = Some _ |- _ => rewrite H
-    | H : (_ =? _) = _ |- _ => rewrite H
-    | H : Nat.leb _ _ = _ |- _ => rewrite H
     end.
 
   Ltac arith c :=
@@ -252,26 +292,16 @@ Section Progress.
     | |- dec _ _ _ _ (goto _ _ _ _) => eapply dec_goto; [eassumption | pool | arith c | okk c]
     end.
 
-  Ltac split_ifs :=
-    repeat match goal with
-    | |- dec _ _ _ _ (fst (_, _)) => cbn [fst]
-    | |- dec _ _ _ _ (fst (match ?x with _ => _ end)) => destruct x eqn:?
-    | |- dec _ _ _ _ (fst (if ?x then _ else _)) => destruct x eqn:?
-    | |- dec _ _ _ _ (match ?x with _ => _ end) => destruct x eqn:?
-    | |- dec _ _ _ _ (if ?x then _ else _) => destruct x eqn:?
-    | |- dec _ _ _ _ (goto _ _ _ (if ?x then _ else _)) => destruct x eqn:?
-    end.
-
   Lemma step_dec s t c p c0 : nth_error (ms_pool s) t = Some (TRun c p) ->
     dec s t c p (fst (mstep g s t c0)).
   Proof.
     intros Hth. unfold mstep. rewrite Hth.
     destruct p; cbv beta iota zeta.
     all: try (destruct x).
-    all: split_ifs; unfold next_child, next_row, next_chunk, next_group, toggle_ok, toggle_fail, toggle_entry;
-      split_ifs.
+    all: branches.
     all: leaf c.
   Qed.
+
   (* ---------- the measure is positive, so it counts the remaining steps ---------- *)
   Lemma stale_le1 s c p : stale s c p <= 1.
   Proof.
@@ -294,7 +324,7 @@ Section Progress.
   Proof.
     induction m; intros s c p Hth Hm.
     - pose proof (mu_pos s c p). lia.
-    - destruct (step_dec s t c p (CGet 0 0) Hth) as [Hs | (p' & Hth' & Hlt & _)].
+    - destruct (step_dec s t c p (CGet 0 0) Hth) as [_ [Hs | (p' & Hth' & Hlt & _)]].
       + exists 1%nat. split; [lia|]. exact Hs.
       + destruct (IHm _ c p' Hth') as (n & Hn & Hset); [lia|].
         exists (S n). split; [lia|]. rewrite solo_S. exact Hset.
@@ -374,14 +404,310 @@ Section Progress.
     split; [lia|]. nia.
   Qed.
 
+  Lemma boundN_ge : 9 * RW + 22 <= boundN /\ 3 * TH <= boundN.
+  Proof.
+    pose proof TH_ge1. unfold boundN.
+    assert (1 * (5 * RW + 7) <= TH * (5 * RW + 7)) by (apply N.mul_le_mono_r; lia).
+    split; lia.
+  Qed.
+
   Lemma mu_bound s c p : pc_ok c p = true -> mu s c p <= boundN.
   Proof.
     intros Hok. unfold mu. pose proof (stale_le1 s c p) as Hst.
-    pose proof RW_ge1 as HR. pose proof TH_ge1 as HT.
+    pose proof RW_ge1 as HR. pose proof TH_ge1 as HT. destruct boundN_ge as [HB1 HB2].
     destruct p; cbn [pc_ok] in Hok; cbn [base].
     all: try (apply andb_true_iff in Hok; destruct Hok as [Hok Hq]; apply N.ltb_lt in Hq).
     1-9: pose proof (M2_le c Hok); rewrite <- ?N.add_assoc; apply get_small_le; [exact Hok|].
     1-9: unfold KW, oG2L, oG2C, oG2R, oG2W, oG2U in *; cbn [stale] in *.
-    Show.
-  Abort.
+    1-9: try match goal with |- context [rem (c_chunks g ?cc) ?ch * CW ?cc] =>
+               pose proof (chunk_off_le cc ch (CW cc) Hok (N.le_refl _)) end.
+    1-9: unfold CW, rem in *; lia.
+    1-2: apply andb_true_iff in Hok; destruct Hok as [Ho1 Ho2];
+         destruct (huge_facts c Ho1 Ho2) as [Hg1 Hg2];
+         match goal with |- context [rem (group_cnt g ?cc) ?gi * GW ?cc] =>
+           pose proof (rem_top (group_cnt g cc) gi (GW cc) Hg1) end;
+         cbn [stale]; unfold GW in *; lia.
+    all: pose proof (tnrows_le XPut c Hok); pose proof (tnrows_le XGetAt c Hok);
+         pose proof (tnrows_le (XSplit 0) c Hok).
+    all: try (pose proof (tnrows_le x c Hok); destruct x).
+    all: unfold tE, tB, tEput, RETRIES in *; cbn [stale] in *; lia.
+  Qed.
+
+  (* ---------- C21: a call that runs alone finishes within `bound g` steps ---------- *)
+  Theorem solo_terminates s t : thread_ok s t ->
+    exists n, (n <= bound g)%nat /\ settled (solo g n s t) t = true.
+  Proof.
+    intros Hok. unfold thread_ok in Hok.
+    destruct (nth_error (ms_pool s) t) as [[r | c p | x c]|] eqn:Hth.
+    2: { apply (solo_mu t (bound g) s c p Hth). rewrite bound_boundN. apply mu_bound. exact Hok. }
+    all: exists 0%nat; split; [lia|]; change (solo g 0 s t) with s; unfold settled; rewrite Hth; reflexivity.
+  Qed.
+
+  (* ---------- pc_ok holds for every thread of every reachable state ---------- *)
+  Definition all_ok (s : mstate) : Prop := forall t, thread_ok s t.
+
+  Lemma entry_ok s c0 : call_ok g s c0 = true -> pc_ok c0 (entry_pc g c0) = true.
+  Proof.
+    unfold call_ok. intros H. apply andb_true_iff in H. destruct H as [H _].
+    assert (0 < c_hnum g c0) by apply pow2_pos.
+    unfold entry_pc.
+    destruct c0; cbn [c_order] in *; destruct (Nat.leb (hord g) order) eqn:E; cbn [pc_ok];
+      unfold small; cbn [c_order]; lia.
+  Qed.
+
+  Lemma thread_ok_upd s s' u x t : ms_pool s' = upd (ms_pool s) u x ->
+    match x with TRun c p => pc_ok c p = true | _ => True end -> thread_ok s t -> thread_ok s' t.
+  Proof.
+    intros E Hx Ht. unfold thread_ok in *. rewrite E. destruct (Nat.eq_dec t u) as [->|Hne].
+    - destruct (nth_error (ms_pool s) u) eqn:En.
+      + rewrite nth_error_upd_same by (eapply nth_lt; exact En). exact Hx.
+      + rewrite upd_oob by (apply nth_error_None; exact En). rewrite En. exact I.
+    - rewrite nth_error_upd_other by congruence. exact Ht.
+  Qed.
+
+  Lemma all_ok_step s u c0 : all_ok s -> all_ok (fst (mstep g s u c0)).
+  Proof.
+    intros Hall t. destruct (nth_error (ms_pool s) u) as [[r|c p|x c]|] eqn:Hu.
+    - unfold mstep. rewrite Hu. destruct (call_ok g s c0) eqn:Hc; [|apply Hall].
+      destruct c0 as [st o|f o|f o]; try destruct (client_take (ms_held s) f o); cbn [fst]; try apply Hall.
+      all: eapply thread_ok_upd;
+        [apply pool_goto with (s := s); reflexivity | apply entry_ok with s; exact Hc | apply Hall].
+    - destruct (step_dec s u c p c0 Hu) as [Hf Hd]. unfold thread_ok.
+      destruct (Nat.eq_dec t u) as [->|Hne].
+      + destruct Hd as [Hs | (p' & Hp' & _ & Hk)].
+        * unfold settled in Hs. destruct (nth_error (ms_pool (fst (mstep g s u c0))) u) as [[| |]|];
+            try exact I. discriminate.
+        * rewrite Hp'. apply Hk. pose proof (Hall u) as Hu'. unfold thread_ok in Hu'.
+          rewrite Hu in Hu'. exact Hu'.
+      + rewrite (Hf t Hne). apply Hall.
+    - unfold mstep. rewrite Hu. apply Hall.
+    - unfold mstep. rewrite Hu. apply Hall.
+  Qed.
+
+  Lemma all_ok_run sch : forall s, all_ok s -> all_ok (mrun g sch s).
+  Proof.
+    induction sch as [|[u c0] sch IH]; intros s H; [exact H|].
+    unfold mrun in *. cbn [fold_left fst snd]. apply IH, all_ok_step, H.
+  Qed.
+
+  Lemma all_ok_boot l h n : all_ok (boot l h n).
+  Proof.
+    intros t. unfold thread_ok, boot. cbn [ms_pool].
+    destruct (nth_error (repeat (TIdle None) n) t) eqn:E; [|exact I].
+    apply nth_error_In, repeat_spec in E. subst. exact I.
+  Qed.
+
+  Lemma thread_ok_reachable sch l h n t : thread_ok (mrun g sch (boot l h n)) t.
+  Proof. apply all_ok_run, all_ok_boot. Qed.
+
+  Theorem reachable_solo_terminates l h n sch t :
+    exists k, (k <= bound g)%nat /\ settled (solo g k (mrun g sch (boot l h n)) t) t = true.
+  Proof. apply solo_terminates. apply all_ok_run, all_ok_boot. Qed.
 End Progress.
+
+(* ---------- CAS-retry loops: left after at most two solo steps ---------- *)
+Section Retry.
+  Variable g : geom.
+
+  (* constructor and loop indices of a CAS program point of a `try_update` loop *)
+  Definition retry_site (p : pc) : option (nat * N * N) :=
+    match p with
+    | G1C j _ => Some (1%nat, j, 0)
+    | G2C j i _ => Some (2%nat, j, i)
+    | G3C j _ => Some (3%nat, j, 0)
+    | A1C _ => Some (4%nat, 0, 0)
+    | A3C _ => Some (5%nat, 0, 0)
+    | TC _ _ => Some (6%nat, 0, 0)
+    | PS2C _ => Some (7%nat, 0, 0)
+    | _ => None
+    end.
+  Definition at_site (s : mstate) (t : nat) (k : nat * N * N) : Prop :=
+    exists c p, nth_error (ms_pool s) t = Some (TRun c p) /\ retry_site p = Some k.
+
+  (* if the thread is still at the same CAS after a step, its cached value was stale and is now current *)
+  Definition rty (s : mstate) (t : nat) (c : call) (p : pc) (k : nat * N * N) (s' : mstate) : Prop :=
+    forall c' p', nth_error (ms_pool s') t = Some (TRun c' p') -> retry_site p' = Some k ->
+      c' = c /\ stale g s' c p' = 0 /\ stale g s c p = 1.
+
+  Lemma rty_crash s t c p k s1 x : nth_error (ms_pool s) t = Some (TRun c p) ->
+    ms_pool s1 = ms_pool s -> rty s t c p k (crash s1 t c x).
+  Proof.
+    intros Hth Hp c' p' H _. rewrite (pool_crash s s1 t c x Hp) in H.
+    rewrite nth_error_upd_same in H by (eapply nth_lt; exact Hth). discriminate.
+  Qed.
+  Lemma rty_finish s t c p k s1 r : nth_error (ms_pool s) t = Some (TRun c p) ->
+    ms_pool s1 = ms_pool s -> rty s t c p k (finish s1 t c r).
+  Proof.
+    intros Hth Hp c' p' H _. rewrite (pool_finish s s1 t c r Hp) in H.
+    rewrite nth_error_upd_same in H by (eapply nth_lt; exact Hth). discriminate.
+  Qed.
+  Lemma rty_goto s t c p k s1 p1 : nth_error (ms_pool s) t = Some (TRun c p) ->
+    ms_pool s1 = ms_pool s -> (retry_site p1 = Some k -> stale g s1 c p1 = 0 /\ stale g s c p = 1) ->
+    rty s t c p k (goto s1 t c p1).
+  Proof.
+    intros Hth Hp Hk c' p' H K. rewrite (pool_goto s s1 t c p1 Hp) in H.
+    rewrite nth_error_upd_same in H by (eapply nth_lt; exact Hth).
+    injection H as <- <-. split; [reflexivity|]. exact (Hk K).
+  Qed.
+
+  Ltac rleaf :=
+    lazymatch goal with
+    | |- rty _ _ _ _ _ (crash _ _ _ _) => eapply rty_crash; [eassumption | pool]
+    | |- rty _ _ _ _ _ (finish _ _ _ _) => eapply rty_finish; [eassumption | pool]
+    | |- rty _ _ _ _ _ (goto _ _ _ _) =>
+        eapply rty_goto; [eassumption | pool |];
+        cbn [retry_site stale]; intros Hsite; try discriminate Hsite;
+        unfold stale_ent, stale_row; use_eqs; rewrite ?N.eqb_refl; split; reflexivity
+    end.
+
+  Lemma retry_step s t c p k c0 : nth_error (ms_pool s) t = Some (TRun c p) -> retry_site p = Some k ->
+    rty s t c p k (fst (mstep g s t c0)).
+  Proof.
+    intros Hth Hk. unfold mstep. rewrite Hth.
+    destruct p; try discriminate Hk; cbv beta iota zeta.
+    all: try (destruct x).
+    all: branches.
+    all: rleaf.
+  Qed.
+
+  Lemma site_eq_dec (a b : option (nat * N * N)) : {a = b} + {a <> b}.
+  Proof. repeat decide equality. Qed.
+
+  Theorem retry_loops_bounded s t c p k :
+    nth_error (ms_pool s) t = Some (TRun c p) -> retry_site p = Some k ->
+    ~ at_site (solo g 1 s t) t k \/ ~ at_site (solo g 2 s t) t k.
+  Proof.
+    intros Hth Hk.
+    change (solo g 2 s t) with (fst (mstep g (solo g 1 s t) t (CGet 0 0))).
+    pose proof (retry_step s t c p k (CGet 0 0) Hth Hk) as R1.
+    change (fst (mstep g s t (CGet 0 0))) with (solo g 1 s t) in R1.
+    set (s1 := solo g 1 s t) in *.
+    destruct (nth_error (ms_pool s1) t) as [[r|c1 p1|x c1]|] eqn:H1.
+    2: destruct (site_eq_dec (retry_site p1) (Some k)) as [K1|K1].
+    2: { right. destruct (R1 c1 p1 H1 K1) as (-> & Hs0 & _).
+         intros (c2 & p2 & H2 & K2).
+         destruct (retry_step s1 t c p1 k (CGet 0 0) H1 K1 c2 p2 H2 K2) as (_ & _ & Hs1). lia. }
+    all: left; intros (c' & p' & H & K); rewrite H1 in H; try discriminate H.
+    injection H as <- <-. contradiction.
+  Qed.
+
+  (* ---------- the only panic that waits for another thread ---------- *)
+  Definition wt (s : mstate) (t : nat) (c : call) (p : pc) (s' : mstate) : Prop :=
+    forall c', nth_error (ms_pool s') t = Some (TPanic SExceedingRetries c') -> exists i, p = PP3 i.
+
+  Lemma wt_crash s t c p s1 x : nth_error (ms_pool s) t = Some (TRun c p) ->
+    ms_pool s1 = ms_pool s -> (x = SExceedingRetries -> exists i, p = PP3 i) -> wt s t c p (crash s1 t c x).
+  Proof.
+    intros Hth Hp Hx c' H. rewrite (pool_crash s s1 t c x Hp) in H.
+    rewrite nth_error_upd_same in H by (eapply nth_lt; exact Hth). injection H as -> _. apply Hx. reflexivity.
+  Qed.
+  Lemma wt_finish s t c p s1 r : nth_error (ms_pool s) t = Some (TRun c p) ->
+    ms_pool s1 = ms_pool s -> wt s t c p (finish s1 t c r).
+  Proof.
+    intros Hth Hp c' H. rewrite (pool_finish s s1 t c r Hp) in H.
+    rewrite nth_error_upd_same in H by (eapply nth_lt; exact Hth). discriminate.
+  Qed.
+  Lemma wt_goto s t c p s1 p1 : nth_error (ms_pool s) t = Some (TRun c p) ->
+    ms_pool s1 = ms_pool s -> wt s t c p (goto s1 t c p1).
+  Proof.
+    intros Hth Hp c' H. rewrite (pool_goto s s1 t c p1 Hp) in H.
+    rewrite nth_error_upd_same in H by (eapply nth_lt; exact Hth). discriminate.
+  Qed.
+
+  Ltac wleaf :=
+    lazymatch goal with
+    | |- wt _ _ _ _ (crash _ _ _ _) =>
+        eapply wt_crash; [eassumption | pool | intros Hx; first [discriminate Hx | eexists; reflexivity]]
+    | |- wt _ _ _ _ (finish _ _ _ _) => eapply wt_finish; [eassumption | pool]
+    | |- wt _ _ _ _ (goto _ _ _ _) => eapply wt_goto; [eassumption | pool]
+    end.
+
+  Theorem exceeding_retries_only_PP3 s t c p c0 c' :
+    nth_error (ms_pool s) t = Some (TRun c p) ->
+    nth_error (ms_pool (fst (mstep g s t c0))) t = Some (TPanic SExceedingRetries c') ->
+    exists i, p = PP3 i.
+  Proof.
+    intros Hth. revert c'. change (wt s t c p (fst (mstep g s t c0))).
+    unfold mstep. rewrite Hth.
+    destruct p; cbv beta iota zeta.
+    all: try (destruct x).
+    all: branches.
+    all: wleaf.
+  Qed.
+End Retry.
+
+(* ---------- D13: the bounded spin of partial_put_huge (lower.rs:469-470) ---------- *)
+Definition g7 : geom := {| hord := 7; tlog := 1 |}.
+(* thread 0: put(0,0) into an allocated huge frame: loads the marker, fills both rows, stops before its CAS;
+   thread 1: put(1,0) into the same huge frame: loads the marker, fails to fill row 0, starts to spin *)
+Definition kw_sch : list (nat * call) :=
+  [(0%nat, CPut 0 0); (0%nat, CPut 0 0); (0%nat, CPut 0 0); (0%nat, CPut 0 0);
+   (1%nat, CPut 1 0); (1%nat, CPut 1 0); (1%nat, CPut 1 0)].
+
+Theorem known_wait :
+  exists (g : geom) (sch : list (nat * call)) (c : call),
+    wf_geom g /\
+    let s := mrun g sch (boot (reserve_all g 256) (alloc_all_held g 256) 2) in
+    held_ok s = true /\
+    nth_error (ms_pool s) 1 = Some (TRun c (PP3 0)) /\
+    rd_ent s (c_huge g c) = Some MARK /\
+    nth_error (ms_pool s) 0 = Some (TRun (CPut 0 0) (PP2 MARK)) /\
+    (* alone, thread 1 panics after RETRIES loads *)
+    nth_error (ms_pool (solo g 4 s 1)) 1 = Some (TPanic SExceedingRetries c) /\
+    (* after one step of thread 0 (its CAS), the same call of thread 1 completes *)
+    nth_error (ms_pool (solo g 5 (fst (mstep g s 0 c)) 1)) 1 = Some (TIdle (Some (Ok 0))).
+Proof.
+  exists g7, kw_sch, (CPut 1 0). split; [unfold wf_geom; cbn; lia|].
+  vm_compute. repeat split; reflexivity.
+Qed.
+
+(* ---------- non-vacuity ---------- *)
+Definition g92 : geom := {| hord := 9; tlog := 2 |}.
+
+(* number of solo steps until thread t is settled *)
+Fixpoint solo_steps (g : geom) (fuel : nat) (s : mstate) (t : nat) : option nat :=
+  if settled s t then Some 0%nat else
+  match fuel with
+  | O => None
+  | S f => option_map S (solo_steps g f (fst (mstep g s t (CGet 0 0))) t)
+  end.
+
+(* get(order 0) on a fresh allocator: start, load + CAS of the counter, load + CAS of the row *)
+Example solo_get_ok :
+  let s := boot (free_all g92 1024) [] 2 in
+  map (fun n => settled (solo g92 n s 0) 0) [1; 2; 3; 4; 5]%nat = [false; false; false; false; true] /\
+  nth_error (ms_pool (solo g92 5 s 0)) 0 = Some (TIdle (Some (Ok 0))).
+Proof. vm_compute. split; reflexivity. Qed.
+
+(* thread 0 has loaded row 0 and is about to CAS it; thread 1 allocates frame 0 in between:
+   thread 0's CAS fails once, is retried with the value it observed, and succeeds *)
+Example solo_mid_race :
+  let s := mrun g92 [(0%nat, CGet 0 0); (0%nat, CGet 0 0); (0%nat, CGet 0 0); (0%nat, CGet 0 0);
+                     (1%nat, CGet 0 0); (1%nat, CGet 0 0); (1%nat, CGet 0 0); (1%nat, CGet 0 0);
+                     (1%nat, CGet 0 0)] (boot (free_all g92 1024) [] 2) in
+  nth_error (ms_pool s) 0 = Some (TRun (CGet 0 0) (G2C 0 0 0)) /\
+  nth_error (ms_pool s) 1 = Some (TIdle (Some (Ok 0))) /\
+  nth_error (ms_pool (solo g92 1 s 0)) 0 = Some (TRun (CGet 0 0) (G2C 0 0 1)) /\
+  nth_error (ms_pool (solo g92 2 s 0)) 0 = Some (TIdle (Some (Ok 1))).
+Proof. vm_compute. repeat split; reflexivity. Qed.
+
+(* worst cases found for HUGE_ORDER 9, TREE_HUGE 4 (bound 235): counters promise free frames that
+   the bitfields do not have (possible in a race), so every child is searched and undone *)
+Definition adversary (o : nat) (row : list N) : mstate :=
+  {| ms_frames := 2048; ms_ents := repeat 512 4; ms_bfs := repeat row 4;
+     ms_pool := [TRun (CGet 0 o) (G1L 0)]; ms_held := [] |}.
+Example worst_cases :
+  solo_steps g92 300 (adversary 0 (repeat MAX64 8)) 0 = Some 48%nat /\
+  solo_steps g92 300 (adversary 7 [0; 1; 0; 1; 0; 1; 0; 1]) 0 = Some 48%nat /\
+  solo_steps g92 300 (adversary 8 [0; 0; 0; 1; 0; 0; 0; 1]) 0 = Some 48%nat /\
+  bound g92 = 235%nat /\ bound g7 = 57%nat /\ bound {| hord := 9; tlog := 3 |} = 423%nat.
+Proof. vm_compute. repeat split; reflexivity. Qed.
+
+(* `thread_ok` cannot be dropped: with a rollback index beyond the group size (no reachable state has
+   one) the rollback of compare_exchange_all walks over as many entries as the memory has *)
+Definition g60 : geom := {| hord := 6; tlog := 0 |}.
+Example pc_ok_needed :
+  let s := {| ms_frames := 3200; ms_ents := repeat 64 50; ms_bfs := [];
+              ms_pool := [TRun (CPut 0 6) (HU 0 45)]; ms_held := [] |} in
+  bound g60 = 31%nat /\ solo_steps g60 100 s 0 = Some 46%nat.
+Proof. vm_compute. split; reflexivity. Qed.
